@@ -21,7 +21,8 @@ RULE = ('geometry recipe (gens/geo.py: rectangular with drawn non-uniform spacin
         'transition columns (region neither empty nor everything), a decomposition special case, a split, or a layer '
         'refinement of a proper subset; distinct = case JSON.')
 ASSUMPTIONS = [
-    'columns are convex (generated ones by construction, shipped ones checked: a non-convex column is counted as excluded input)',
+    'columns are convex (generated ones by construction, shipped ones checked: a non-convex column is counted as excluded input); '
+    'for refine and split_column every interior angle is below pi - 1e-3 (no triangle-shaped quadrilaterals)',
     'the input geometry itself is conforming (side-sharing <=> connection, no hanging nodes); otherwise only conservation and tiling are judged',
     'sample points closer than 1e-6 column diameters + 1e-9 |coordinate| to an old or new column side are not judged (counted)',
     'area/volume tolerance: relative 1e-9 plus (perimeter x |coordinate| x 1e-15), the rounding of mid-side nodes of boundary sides '
@@ -365,6 +366,10 @@ def judge_step(g, op, rc, W, R, si):
             R.exclude('input:non-convex-column-to-decompose'); return False
     elif kind != 'refine_layers' and not all(convex):
         R.exclude('input:non-convex-column'); return False
+    if kind in ('refine', 'split') and any(max(geom_ref.turn_angles(p)) > math.pi - 1e-3 for p in polys_old):
+        # e.g. the quadrilaterals with three collinear nodes that decompose_columns makes of an 8-sided column whose straight
+        # nodes are adjacent: a triangle-shaped "quadrilateral" cannot be cut into transition triangles
+        R.exclude('input:3-or-4-sided-column-with-a-straight-angle'); return False
     nsides = set(len(p) for p in polys_old)
     if kind in ('refine', 'split') and max(nsides) > 4:
         R.label('skipped:%s-on-geometry-with-more-than-4-sided-columns' % kind); return False
